@@ -233,6 +233,11 @@ def load(repo, scratch, crate_key, **vm_args):
             for sub in ('query', 'schema'):
                 for k, v in parse_struct_fields(os.path.join(d, sub)).items():
                     L.structs[f'{sub}::{k}'] = v
+        msyn = re.findall(r'name = "syn"\nversion = "(2\.[^"]+)"', lock)
+        for ver in msyn:
+            for d in glob.glob(os.path.expanduser(f'~/.cargo/registry/src/*/syn-{ver}/src')):
+                for k, v in parse_struct_fields(d).items():
+                    L.structs.setdefault(f'syn::{k}', v)
     except Exception:
         pass
     L.mir_sha = hashlib.sha256(text.encode()).hexdigest()[:16]
